@@ -24,7 +24,11 @@ impl serde::ser::Error for SErr {
   }
 }
 
-/// `<hint> <SEQ>`: hint `N` | `<n>`; SEQ `sq[<val>|E,...]`
+/// marker value of an `N` item: `next_element` answers `Ok(None)` there, and goes on with the following items if
+/// it is polled again (an access that is not fused)
+pub const END: i64 = i64::MIN;
+
+/// `<hint> <SEQ>`: hint `N` | `<n>`; SEQ `sq[<val>|E|N,...]`
 #[derive(Clone)]
 pub struct Sq {
   pub items: Vec<Option<i64>>, // None = `E`
@@ -38,12 +42,17 @@ impl Sq {
     let items = if body.is_empty() {
       Vec::new()
     } else {
-      body.split(',').map(|x| if x == "E" { Some(None) } else { script::val(x).map(Some) }).collect::<Option<_>>()?
+      body.split(',').map(|x| if x == "E" { Some(None) } else if x == "N" { Some(Some(END)) } else { script::val(x).map(Some) }).collect::<Option<_>>()?
     };
     Some(Sq { items, pos: 0, hint })
   }
   pub fn values(&self) -> usize {
-    self.items.iter().flatten().count()
+    self.items.iter().flatten().filter(|v| **v != END).count()
+  }
+  /// the items up to (not including) the first `N`: what a visitor that stops at the first `None` sees
+  pub fn until_end(&self) -> &[Option<i64>] {
+    let k = self.items.iter().position(|x| *x == Some(END)).unwrap_or(self.items.len());
+    &self.items[..k]
   }
 }
 
@@ -64,6 +73,7 @@ impl<'a, 'de> SeqAccess<'de> for ScriptSeq<'a> {
     self.sq.pos += 1;
     match self.sq.items[self.sq.pos - 1] {
       None => Err(SErr),
+      Some(v) if v == END => Ok(None),
       Some(v) => {
         let d: de::value::I64Deserializer<SErr> = v.into_deserializer();
         seed.deserialize(d).map(Some)
